@@ -151,7 +151,7 @@ def collect(prop, tier, fnd, cov, ck):
         model = ck.stage_model(tier, module="MC_Iter.tla", base="MC_Iter", name="model-iter")
         model_into(prop, model, cov, ck, "MC_Iter")
         dump = ck.stage_dump(tier, module="MC_Iter.tla", base="MC_IterDump", name="dump-iter",
-                             segments=(("forget", 1500 if tier == "quick" else 20000),))
+                             segments=(("forget", 1500 if tier == "quick" else 8000),))
         cov["edges"] = dump["tour"]["edges"]
         nt = dump["nontrivial"]
         if prop == "C12":
